@@ -165,20 +165,76 @@ pub fn case_strategy(g: Gen) -> BoxedStrategy<ChanCase> {
             (Just(cfg), Just(producers), Just(consumers), Just(prefill), Just(finish_async), sparse_or_any_schedule(n, est))
         })
         .prop_map(move |((kind, buffer, max_streams, origin), producers, consumers, prefill, finish_async, schedule)| {
-            let mut c = sanitize(ChanCase { kind, buffer, max_streams, origin, prefill, producers, consumers, finish_async, leftovers: false, schedule });
-            if g.end_all { for k in c.consumers.iter_mut() { k.drop_on_end = true; k.create_late = false; k.stop_after = None; } }
-            if g.end_one {
-                let n = c.consumers.len() as u8;
-                let mut target = 0u8;
-                for p in c.producers.iter_mut() { for op in p.iter_mut() { if let POp::EndStream(sel) = op { *sel %= n; target = *sel; } } }
-                let resub = c.consumers[target as usize].hold;      // (re-using a generated number: 0 = no re-subscription)
-                let t = &mut c.consumers[target as usize];
-                t.drop_on_end = true; t.create_late = false; t.stop_after = None;
-                t.resubscribe = if resub > 0 { Some(resub * 2) } else { None };
-            }
-            c
+            finalize_case(&g, ChanCase { kind, buffer, max_streams, origin, prefill, producers, consumers, finish_async, leftovers: false, schedule })
         })
         .boxed()
+}
+
+/// the last step of generation (shared by the proptest strategy and the fuzz decoder): documented restrictions + the roles the options assign
+pub fn finalize_case(g: &Gen, c: ChanCase) -> ChanCase {
+    let mut c = sanitize(c);
+    if g.end_all { for k in c.consumers.iter_mut() { k.drop_on_end = true; k.create_late = false; k.stop_after = None; } }
+    if g.end_one {
+        let n = c.consumers.len() as u8;
+        let mut target = 0u8;
+        for p in c.producers.iter_mut() { for op in p.iter_mut() { if let POp::EndStream(sel) = op { *sel %= n; target = *sel; } } }
+        let resub = c.consumers[target as usize].hold;      // (re-using a generated number: 0 = no re-subscription)
+        let t = &mut c.consumers[target as usize];
+        t.drop_on_end = true; t.create_late = false; t.stop_after = None;
+        t.resubscribe = if resub > 0 { Some(resub * 2) } else { None };
+    }
+    c
+}
+
+/// structure-aware decoding of fuzzer bytes into a case of `case_strategy(g)`'s domain (same menus, same roles, same final step)
+pub fn decode_chan(u: &mut arbitrary::Unstructured<'_>, g: &Gen) -> Option<ChanCase> {
+    let b = |u: &mut arbitrary::Unstructured<'_>| -> u8 { u.arbitrary::<u8>().unwrap_or(0) };
+    let kind = g.kinds[b(u) as usize % g.kinds.len()];
+    let cfgs: Vec<(u8, u8)> = crate::chan::CONFIGS.iter().copied().filter(|(bf, m)| g.buffers.contains(bf) && g.max_streams.contains(m)).collect();
+    let (buffer, max_streams) = cfgs[b(u) as usize % cfgs.len()];
+    let origin = if g.origins { let x = b(u); if x < 150 { 0 } else { u32::MAX - (x as u32 % 40) } } else { 0 };
+    let entries = kind.entries();
+    let n_prod = 1 + b(u) as usize % g.max_producers.max(1);
+    let mut producers = vec![];
+    for _ in 0..n_prod {
+        let n_ops = 1 + b(u) as usize % g.max_ops.max(1);
+        let mut script = vec![];
+        for _ in 0..n_ops {
+            let e = entries[b(u) as usize % entries.len()];
+            let mut menu: Vec<POp> = vec![POp::Send(e), POp::Send(e), POp::Send(e)];
+            if g.retry { menu.push(POp::SendRetry(e)); menu.push(POp::SendRetry(e)); }
+            if g.async_ops {
+                if kind.has_async() { menu.push(POp::AsyncBegin(1 + b(u) % 3)); menu.push(POp::AsyncBegin(1)); menu.push(POp::AsyncPoll); menu.push(POp::AsyncPoll); }
+                menu.push(POp::Len);
+                if kind.has_reserve() { menu.push(POp::Reserve); menu.push(POp::SendOldestReserved); }
+            }
+            if g.reserve_ops && kind.has_reserve() { menu.push(POp::Reserve); menu.push(POp::Reserve); menu.push(POp::SendOldestReserved); menu.push(POp::SendOldestReserved); menu.push(POp::CancelNewestReserved); }
+            script.push(menu[b(u) as usize % menu.len()]);
+        }
+        producers.push(script);
+    }
+    if g.canceller { producers.push(vec![POp::Pause(b(u) % 12), POp::CancelAll]); }
+    if g.end_all { producers.push(vec![POp::Pause(b(u) % 16), POp::EndAll]); }
+    if g.end_one { producers.push(vec![POp::Pause(b(u) % 16), POp::EndStream(b(u))]); }
+    let lo = g.min_consumers.min(max_streams as usize).max(1);
+    let hi = (max_streams as usize).min(g.max_consumers).max(lo);
+    let n_cons = lo + b(u) as usize % (hi - lo + 1);
+    let mut consumers = vec![];
+    for _ in 0..n_cons {
+        let (c, n, h) = (b(u), 1 + b(u) % 3, b(u));
+        let fresh_waker_at = if g.fresh_wakers && h & 8 == 8 { vec![b(u) % 5] } else { vec![] };
+        consumers.push(Consumer { hold: b(u) % 3, fresh_waker_at, create_late: g.churn && c % 3 == 1, stop_after: if g.churn && c % 3 == 2 { Some(n) } else { None },
+                                  clone_handle: g.handles && h & 1 == 1, into_shared: g.handles && h & 2 == 2, max_items: None, drop_on_end: g.drop_on_end && h & 4 == 4, resubscribe: None });
+    }
+    let prefill = if g.prefill { match b(u) % 7 { 0 | 1 | 2 => 0, 3 => 1, 4 => buffer - 1, 5 => buffer, _ => b(u) % (buffer + 1) } } else { 0 };
+    let finish_async = if g.async_ops { b(u) & 1 == 1 } else { true };
+    let n_threads = (producers.len() + consumers.len()) as u8;
+    let schedule = match b(u) % 8 {
+        0..=3 => { let k = b(u) % 8; let mut step = 0u32; Schedule::Sparse((0..k).map(|_| { step += b(u) as u32 % 24 + 1; (step, b(u) % n_threads) }).collect()) },
+        4 | 5 => Schedule::Pct { seed: u.arbitrary::<u64>().unwrap_or(1), depth: 1 + b(u) % 4, est_len: 10 + producers.iter().map(|p| p.len() as u32 * 14).sum::<u32>() + consumers.len() as u32 * 24 },
+        _ => Schedule::Random { seed: u.arbitrary::<u64>().unwrap_or(1), per_1024: [64u16, 200, 500][b(u) as usize % 3] },
+    };
+    Some(finalize_case(g, ChanCase { kind, buffer, max_streams, origin, prefill, producers, consumers, finish_async, leftovers: false, schedule }))
 }
 
 // ---------------------------------------------------------------------------------------------------------------------
@@ -428,6 +484,7 @@ impl Property for C01Uni {
     fn strategy(&self, _tier: Tier) -> BoxedStrategy<ChanCase> {
         case_strategy(Gen { kinds: &UNI_KINDS, max_streams: &[1, 2, 4], buffers: &[2, 4, 8], max_producers: 3, max_ops: 4, max_consumers: 3, retry: true, fresh_wakers: false, origins: true, prefill: true, ..Default::default() })
     }
+    fn decode(&self, u: &mut arbitrary::Unstructured<'_>) -> Option<ChanCase> { crate::props::uni::decode_chan(u, &Gen { kinds: &UNI_KINDS, max_streams: &[1, 2, 4], buffers: &[2, 4, 8], max_producers: 3, max_ops: 4, max_consumers: 3, retry: true, fresh_wakers: false, origins: true, prefill: true, ..Default::default() }) }
     fn cases(&self, tier: Tier) -> u32 { match tier { Tier::Quick => 6_000, Tier::Thorough => 150_000 } }
     fn run(&self, case: &ChanCase) -> RunReport {
         let run = execute(case, Epilogue { drain: true, ..Default::default() });
@@ -451,6 +508,7 @@ impl Property for C02Uni {
     fn strategy(&self, _tier: Tier) -> BoxedStrategy<ChanCase> {
         case_strategy(Gen { kinds: &UNI_KINDS, max_streams: &[1, 2, 4], buffers: &[2, 4], max_producers: 3, max_ops: 3, max_consumers: 3, retry: false, fresh_wakers: false, origins: true, prefill: true, ..Default::default() })
     }
+    fn decode(&self, u: &mut arbitrary::Unstructured<'_>) -> Option<ChanCase> { crate::props::uni::decode_chan(u, &Gen { kinds: &UNI_KINDS, max_streams: &[1, 2, 4], buffers: &[2, 4], max_producers: 3, max_ops: 3, max_consumers: 3, retry: false, fresh_wakers: false, origins: true, prefill: true, ..Default::default() }) }
     fn cases(&self, tier: Tier) -> u32 { match tier { Tier::Quick => 6_000, Tier::Thorough => 150_000 } }
     fn run(&self, case: &ChanCase) -> RunReport {
         let run = execute(case, Epilogue { drain: true, ..Default::default() });
@@ -474,6 +532,7 @@ impl Property for C04Uni {
     fn strategy(&self, _tier: Tier) -> BoxedStrategy<ChanCase> {
         case_strategy(Gen { kinds: &UNI_KINDS, max_streams: &[1, 2], buffers: &[2, 4, 8], max_producers: 3, max_ops: 3, max_consumers: 2, retry: true, fresh_wakers: true, origins: false, prefill: true, ..Default::default() })
     }
+    fn decode(&self, u: &mut arbitrary::Unstructured<'_>) -> Option<ChanCase> { crate::props::uni::decode_chan(u, &Gen { kinds: &UNI_KINDS, max_streams: &[1, 2], buffers: &[2, 4, 8], max_producers: 3, max_ops: 3, max_consumers: 2, retry: true, fresh_wakers: true, origins: false, prefill: true, ..Default::default() }) }
     fn cases(&self, tier: Tier) -> u32 { match tier { Tier::Quick => 8_000, Tier::Thorough => 200_000 } }
     fn run(&self, case: &ChanCase) -> RunReport {
         let run = execute(case, Epilogue { drain: true, ..Default::default() });
@@ -582,6 +641,7 @@ impl Property for C03Multi {
     fn strategy(&self, _tier: Tier) -> BoxedStrategy<ChanCase> {
         case_strategy(Gen { kinds: &MULTI_KINDS, max_streams: &[1, 2, 4], buffers: &[2, 4, 8], max_producers: 3, max_ops: 3, max_consumers: 3, retry: true, fresh_wakers: false, origins: true, prefill: true, ..Default::default() })
     }
+    fn decode(&self, u: &mut arbitrary::Unstructured<'_>) -> Option<ChanCase> { crate::props::uni::decode_chan(u, &Gen { kinds: &MULTI_KINDS, max_streams: &[1, 2, 4], buffers: &[2, 4, 8], max_producers: 3, max_ops: 3, max_consumers: 3, retry: true, fresh_wakers: false, origins: true, prefill: true, ..Default::default() }) }
     fn cases(&self, tier: Tier) -> u32 { match tier { Tier::Quick => 6_000, Tier::Thorough => 120_000 } }
     fn run(&self, case: &ChanCase) -> RunReport {
         let run = execute(case, Epilogue { drain: true, ..Default::default() });
@@ -606,6 +666,7 @@ impl Property for C04Multi {
     fn strategy(&self, _tier: Tier) -> BoxedStrategy<ChanCase> {
         case_strategy(Gen { kinds: &MULTI_KINDS, max_streams: &[1, 2], buffers: &[2, 4, 8], max_producers: 3, max_ops: 3, max_consumers: 2, retry: true, fresh_wakers: true, origins: false, prefill: true, ..Default::default() })
     }
+    fn decode(&self, u: &mut arbitrary::Unstructured<'_>) -> Option<ChanCase> { crate::props::uni::decode_chan(u, &Gen { kinds: &MULTI_KINDS, max_streams: &[1, 2], buffers: &[2, 4, 8], max_producers: 3, max_ops: 3, max_consumers: 2, retry: true, fresh_wakers: true, origins: false, prefill: true, ..Default::default() }) }
     fn cases(&self, tier: Tier) -> u32 { match tier { Tier::Quick => 6_000, Tier::Thorough => 150_000 } }
     fn run(&self, case: &ChanCase) -> RunReport {
         let run = execute(case, Epilogue { drain: true, ..Default::default() });
